@@ -5,8 +5,9 @@ import "fbverif/sx"
 // Gen generates one case.  Streams:
 //   - scenario cases (most): 1-4 partitions, each with one request (window empty / single / small / large, from on and
 //     off the progress-broadcast grid, occasionally trimmed by maxrec), requests filed before or after the assignment,
-//     then fresh records pumped in interleaved chunks with stale records, refreshes, truncation errors, revocations and
-//     crashes thrown in at any point, then (mostly) pumped to completion;
+//     then fresh records pumped in interleaved chunks with stale records (below the position) and stragglers (ahead of
+//     it, e.g. right after a refresh caused by a late request of another partition), refreshes, truncation errors,
+//     revocations and crashes thrown in at any point, then (mostly) pumped to completion;
 //   - chaos cases: arbitrary op sequences incl. raw records, foreign snapshots, cancel-all, main assignments;
 //   - for focus C19: a few timing cases first (real constructor, wall clock), and more main-consumer records.
 func Gen(r *sx.Rng, idx int, focus string) sx.Tree {
@@ -38,6 +39,7 @@ func Gen(r *sx.Rng, idx int, focus string) sx.Tree {
 func opPump(p, k int64) sx.Tree     { return sx.Ints(1, p, k) }
 func opStale(p, d int64) sx.Tree    { return sx.Ints(2, p, d) }
 func opRaw(p, o int64) sx.Tree      { return sx.Ints(3, p, o) }
+func opAhead(p, d int64) sx.Tree    { return sx.Ints(13, p, d) }
 func opMain(p, o int64) sx.Tree     { return sx.Ints(4, p, o) }
 func opRefresh() sx.Tree            { return sx.Ints(6) }
 func opRevoke() sx.Tree             { return sx.Ints(8) }
@@ -117,6 +119,16 @@ func genScenario(r *sx.Rng, focus string) sx.Tree {
 			ops = append(ops, opRequest(w.p, w.f, w.t))
 		}
 	}
+	// one partition's request may arrive late: the refresh it causes re-assigns the client while the others are being
+	// recovered, and a straggler of the previous assignment (ahead of the new position) is delivered right after it
+	late := -1
+	if len(wins) >= 2 && r.Chance(40) {
+		late = r.Intn(len(wins))
+	}
+	allWins := wins
+	if late >= 0 {
+		wins = append(append([]win(nil), allWins[:late]...), allWins[late+1:]...)
+	}
 	if r.Bool() {
 		setOwned()
 		requests()
@@ -138,10 +150,27 @@ func genScenario(r *sx.Rng, focus string) sx.Tree {
 		mainPct = 25
 	}
 	steps := int(r.Range(3, 30))
+	lateAt := -1
+	if late >= 0 {
+		lateAt = r.Intn(steps)
+	}
 	for i := 0; i < steps; i++ {
+		if i == lateAt {
+			lw := allWins[late]
+			ops = append(ops, opRequest(lw.p, lw.f, lw.t))
+			if r.Chance(90) {
+				ops = append(ops, opRefresh())
+			}
+			for k := int(r.Range(0, 2)); k > 0; k-- {
+				ops = append(ops, opAhead(wins[r.Intn(len(wins))].p, r.Range(0, 3)))
+			}
+			wins = allWins
+		}
 		w := wins[r.Intn(len(wins))]
 		size := w.t - w.f
 		switch {
+		case r.Chance(7):
+			ops = append(ops, opAhead(w.p, r.Range(0, 4)))
 		case r.Chance(mainPct):
 			ops = append(ops, opMain(r.Range(0, 9), r.Range(0, 500)))
 		case r.Chance(disrupt):
@@ -250,7 +279,11 @@ func genChaos(r *sx.Rng, focus string) sx.Tree {
 		case 0, 1, 2:
 			ops = append(ops, opPump(part(), r.Range(1, 12)))
 		case 3:
-			ops = append(ops, opStale(part(), r.Range(0, 10)))
+			if r.Bool() {
+				ops = append(ops, opStale(part(), r.Range(0, 10)))
+			} else {
+				ops = append(ops, opAhead(part(), r.Range(0, 5)))
+			}
 		case 4, 5:
 			ops = append(ops, opRaw(part(), off()))
 		case 6:
